@@ -65,12 +65,15 @@ def plan_case(case_id: int, c: dict, seed: int, names: dict, probe: dict | None 
             js = [j for j in range(i) if c["sizes"][j] == c["sizes"][i] and kinds[j] not in ("dup",)]
             k = "dup:%d" % (rng.choice(js) + 1) if js else "array"
         kinds.append(k)
-    # placement: main graph | then_branch | else_branch of an If node, contiguous (keeps declaration order)
+    # placement: main graph | then_branch | else_branch of an If node | then_branch of an If nested inside the
+    # then_branch (two levels deep), contiguous (keeps declaration order)
     a = rng.randint(0, n)
     b = rng.randint(a, n)
     if rng.random() < 0.3:
         a = b = n
-    place = ["main"] * a + ["then"] * (b - a) + ["else"] * (n - b)
+    e = rng.randint(b, n) if rng.random() < 0.5 else b
+    # (graphs are visited depth first: the nested If of the then_branch comes before the else_branch)
+    place = ["main"] * a + ["then"] * (b - a) + ["deep"] * (e - b) + ["else"] * (n - e)
     plan = {
         "id": case_id,
         "c": c,
@@ -241,17 +244,24 @@ def build(plan: dict, casedir: str, names: dict) -> Built:
                      type=ir.TensorType(ir.DataType[d["dtype"]]))
         out.values.append(v)
 
-    def branch(gname, vals):
+    def branch(gname, vals, extra_nodes=()):
         o = ir.Value(name=gname + "_out", shape=ir.Shape([]), type=ir.TensorType(ir.DataType.FLOAT))
         node = ir.Node("", "Constant", [], attributes=[ir.AttrFloat32("value_float", 1.0)], outputs=[o], name=gname + "_c")
-        return ir.Graph(inputs=[], outputs=[o], nodes=[node], initializers=vals, name=gname)
+        return ir.Graph(inputs=[], outputs=[o], nodes=[node, *extra_nodes], initializers=vals, name=gname)
 
-    by = {"main": [], "then": [], "else": []}
+    by = {"main": [], "then": [], "else": [], "deep": []}
     for i in range(n):
         by[plan["place"][i]].append(out.values[i])
     cond = ir.Value(name="cond", shape=ir.Shape([]), type=ir.TensorType(ir.DataType.BOOL))
     y = ir.Value(name="y", shape=ir.Shape([]), type=ir.TensorType(ir.DataType.FLOAT))
-    ifn = ir.Node("", "If", [cond], attributes=[ir.AttrGraph("then_branch", branch("then_g", by["then"])),
+    inner = []
+    if by["deep"]:
+        # an If inside the then_branch (it captures cond from the main graph); its then_branch holds the deep initializers
+        y2 = ir.Value(name="deep_y", shape=ir.Shape([]), type=ir.TensorType(ir.DataType.FLOAT))
+        inner = [ir.Node("", "If", [cond], attributes=[ir.AttrGraph("then_branch", branch("deep_then_g", by["deep"])),
+                                                      ir.AttrGraph("else_branch", branch("deep_else_g", []))],
+                         outputs=[y2], name="if_deep")]
+    ifn = ir.Node("", "If", [cond], attributes=[ir.AttrGraph("then_branch", branch("then_g", by["then"], inner)),
                                                ir.AttrGraph("else_branch", branch("else_g", by["else"]))],
                   outputs=[y], name="if0")
     g = ir.Graph(inputs=[cond], outputs=[y], nodes=[ifn], initializers=by["main"], name="main_g",
